@@ -82,6 +82,8 @@ def run(ctx):
     reserve_commit(ctx, ctx.facts("effects.cpp", "A", ()))
     store_usage(ctx, core)
     string_flag(ctx, ctx.facts("effects.cpp", "A", ()), core)
+    order_preserved(ctx, ctx.facts("effects.cpp", "A", ()))
+    hex_escape(ctx, core)
 
 
 def matrix_witness():
@@ -486,3 +488,115 @@ def string_flag(ctx, eff, core):
         not g.exists_path([g.entry_node], san, avoid_edges=[(b, t) for (b, t, c) in hb])
     ctx.ob("C04.R6d", "_populate_formatted_log_message:sanitise-after-format", ok,
            "the sanitiser runs on the formatted message, after formatting, for statements that carry string-like data", fn=f)
+
+
+def split_targs(t):
+    """top-level template arguments of 'name<a, b<c>, d>'"""
+    i = t.find("<")
+    if i < 0 or not t.endswith(">"):
+        return t, []
+    name, body = t[:i], t[i + 1:-1]
+    out, depth, cur = [], 0, ""
+    for ch in body:
+        if ch == "<":
+            depth += 1
+        elif ch == ">":
+            depth -= 1
+        if ch == "," and depth == 0:
+            out.append(cur.strip())
+            cur = ""
+        else:
+            cur += ch
+    if cur.strip():
+        out.append(cur.strip())
+    return name, out
+
+
+def order_preserved(ctx, facts):
+    """R7: what the backend formats iterates in the caller's order: an ordered container is rebuilt with the caller's comparator
+    (std::less<Key> may be re-bound to the decoded key type), sequence containers are rebuilt by appending"""
+    n = 0
+    for f in facts.fns:
+        if f.config != "A" or f.base != "decode_arg" or not f.cls:
+            continue
+        m = re.match(r"^quill::Codec<(std::(?:multi)?(?:set|map)<.*>)>$", f.cls)
+        if not m:
+            continue
+        name, targs = split_targs(m.group(1))
+        is_map = name.endswith("map")
+        cmp_in = targs[2] if is_map and len(targs) > 2 else (targs[1] if not is_map and len(targs) > 1 else None)
+        key_in = targs[0]
+        rname, rargs = split_targs(f.rec.get("cret", ""))
+        if rname != name:
+            raise AnalysisBroken("%s::decode_arg returns %s: shape not covered" % (f.cls, rname))
+        cmp_out = rargs[2] if is_map and len(rargs) > 2 else (rargs[1] if not is_map and len(rargs) > 1 else None)
+        key_out = rargs[0] if rargs else None
+        if cmp_in is None:
+            cmp_in = "std::less<%s>" % key_in
+        if cmp_out is None:
+            cmp_out = "std::less<%s>" % key_out
+        default_in = cmp_in == "std::less<%s>" % key_in
+        ok = (cmp_out == cmp_in) or (default_in and cmp_out == "std::less<%s>" % key_out)
+        n += 1
+        ctx.ob("C04.R7a", "%s:comparator-kept" % f.cls.replace("quill::", "")[:120], ok,
+               "the container the backend formats is ordered by the caller's comparator (%s -> %s): elements are printed in the order the "
+               "call site would print them" % (cmp_in, cmp_out), fn=f)
+    ctx.floor("C04.R7a", "ordered-container decoders (incl. user comparators)", n, 8)
+    # sequence containers are rebuilt by appending in decode order
+    m = 0
+    for f in facts.fns:
+        if f.config != "A" or f.base != "decode_arg" or not f.cls:
+            continue
+        mm = re.match(r"^quill::Codec<std::(vector|deque|list)<", f.cls)
+        if not mm:
+            continue
+        m += 1
+        app = f.calls(r"::(emplace_back|push_back)\b")
+        front = f.calls(r"::(emplace_front|push_front)\b")
+        by_index = False
+        for lp in [n for n in f.walk() if n["k"] == "ForStmt"]:
+            init = lp.get("init")
+            iv = init["decls"][0]["did"] if isnode(init) and init["k"] == "DeclStmt" and init.get("decls") else None
+            for x in walk(lp.get("body")):
+                if is_call(x, r"::operator\[\]") and len(x.get("args", [])) == 2 and var_ref(x["args"][1]) == iv and iv is not None:
+                    by_index = True
+        ctx.ob("C04.R7b", "%s:appends-in-order" % f.cls.replace("quill::", "")[:120], (bool(app) or by_index) and not front,
+               "decoded elements are appended at the back, in the order they were encoded", fn=f)
+    ctx.floor("C04.R7b", "sequence-container decoders", m, 5)
+
+
+def hex_escape(ctx, facts):
+    """R8: the sanitiser writes \\x followed by the high and the low nibble of the byte, each masked to four bits"""
+    fs = facts.fn("quill::detail::BackendWorker::sanitize_non_printable_chars", "A")
+    if not fs:
+        raise AnalysisBroken("sanitize_non_printable_chars not instantiated")
+    for f in fs[:2]:
+        subs = [n for n in f.walk() if n["k"] == "ArraySubscriptExpr" and var_ref(n["base"]) is not None and
+                "char" in (strip(n["base"]).get("ty", "") if isnode(strip(n["base"])) else "")]
+        idx = []
+        for n in subs:
+            i = strip(n["idx"], casts=True)
+            if isnode(i) and i["k"] == "BinaryOperator" and i["op"] == "&" and 15 in (const_val(i["lhs"]), const_val(i["rhs"])):
+                other_side = i["lhs"] if const_val(i["rhs"]) == 15 else i["rhs"]
+                o = strip(other_side, casts=True)
+                if isnode(o) and o["k"] == "BinaryOperator" and o["op"] == ">>" and const_val(o["rhs"]) == 4:
+                    idx.append(("hi", n))
+                elif var_ref(o) is not None:
+                    idx.append(("lo", n))
+                else:
+                    idx.append(("?", n))
+            else:
+                idx.append(("unmasked", n))
+        kinds = [k for (k, n) in idx]
+        order_ok = kinds == ["hi", "lo"]
+        ctx.ob("C04.R8a", "sanitize_non_printable_chars<%s>:nibbles-masked" % (f.rec.get("targs") or ["?"])[0][:40], order_ok,
+               "a non-printable byte is written as its high nibble ((c >> 4) & 0xF) then its low nibble (c & 0xF), both masked so that bytes "
+               ">= 0x80 (sign-extending char) index inside the 16-digit table (found: %s)" % kinds, fn=f)
+        # the escape is backslash, 'x', hi, lo in this order; printable bytes are copied
+        lits = []
+        for c in f.calls(r"::append\b"):
+            cl = [x.get("val") for x in walk(c) if x["k"] == "CharacterLiteral"]
+            if cl:
+                lits.append(cl[0])
+        ctx.ob("C04.R8b", "sanitize_non_printable_chars<%s>:escape-prefix" % (f.rec.get("targs") or ["?"])[0][:40], lits[:2] == [92, 120],
+               "the escape starts with '\\\\' 'x' (found character literals %s)" % lits[:3], fn=f)
